@@ -528,10 +528,28 @@ def rule_flip_cover(repo):
             if s.value.func.attr == 'extend' and a == [yv]:
                 return True
             if s.value.func.attr == 'append' and a == [f"{yv}[0]"]:
-                # only sound where len(y) == 1: in the else-arm of `len(y) > 1`
-                gs = guards_of(s)
-                return any(g.kind == 'if' and norm(g.test) == f"len({yv}) > 1" and g.polarity is False for g in gs) or \
-                    any(g.kind == 'if' and norm(g.test) == f"len({yv}) == 1" and g.polarity is True for g in gs)
+                # only sound where len(y) == 1 (buckets are non-empty): the guards of this statement, evaluated over
+                # len(y) in {1,2,3} and every valuation of the other atoms, must imply len(y) == 1
+                from sa.minieval import Evaluator
+                gs = [g for g in guards_of(s) if g.kind == 'if' and any(x is g.node for x in ast.walk(lp))]
+                if not gs:
+                    return False
+                atoms = sorted({norm(n) for g in gs for n in ast.walk(g.test) if isinstance(n, ast.Compare) and f"len({yv})" not in norm(n)})
+                import itertools
+                for n_len in (1, 2, 3):
+                    for vals in itertools.product((False, True), repeat=len(atoms)):
+                        val = dict(zip(atoms, vals))
+
+                        def leaf(e, n_len=n_len, val=val):
+                            if isinstance(e, ast.Call) and norm(e) == f"len({yv})":
+                                return n_len
+                            if isinstance(e, ast.Compare) and norm(e) in val:
+                                return val[norm(e)]
+                            return NotImplemented
+                        holds = all(bool(Evaluator({}, arith=False, leaf=leaf).ev(g.test)) == g.polarity for g in gs)
+                        if holds and n_len != 1:
+                            return False
+                return True
         return False
     if _covers_all(lp, moves_all) and norm(lp.iter).endswith('.items()'):
         r.ok(m, 'SimpleSchedulePass.schedule_posedge_flip', 'regrouping moves every bucket completely')
@@ -768,6 +786,7 @@ MUTANTS = [
 ]
 
 EQUIV = [
+    _m('flip-regroup-merged-branches', SIMPLE, "        if len(y) > 1:\n          next_hostobj_signals[x].extend( y )\n        elif x is top:\n          next_hostobj_signals[x].extend( y )\n        else:", "        if len(y) > 1 or x is top:\n          next_hostobj_signals[x].extend( y )\n        else:"),
     _m('flip-explicit-tmp', BITS, "    self._uint = self._next\n", "    self._uint = self._next\n    pass\n"),
     _m('collect-order-trace', PREP, "    ret.extend( top._sched.schedule_ff )\n    ret.extend( top._sched.schedule_posedge_flip )", "    ret += top._sched.schedule_ff\n    ret += top._sched.schedule_posedge_flip"),
     _m('tick-copy-form', PREP, "      final_schedule = top._sched.update_schedule[::]", "      final_schedule = list( top._sched.update_schedule )"),
